@@ -10,6 +10,7 @@ import (
 	rctypes "github.com/rigochain/rigo-go/ctrlers/types"
 	"github.com/rigochain/rigo-go/ctrlers/vm/evm"
 	"github.com/rigochain/rigo-go/genesis"
+	"github.com/rigochain/rigo-go/ledger"
 	"github.com/rigochain/rigo-go/types/bytes"
 	"github.com/rigochain/rigo-go/types/crypto"
 	"github.com/rigochain/rigo-go/types/xerrors"
@@ -52,6 +53,22 @@ func NewRigoApp(config *cfg.Config, logger log.Logger) *RigoApp {
 	stateDB, err := rctypes.OpenMetaDB("rigo_app", config.DBDir())
 	if err != nil {
 		panic(err)
+	}
+
+	// If the process died in the middle of the last `Commit`, the stores saved before that moment
+	// are one version ahead of the block that `Info` is going to report.
+	// Bring them back to that block, so that its successor is replayed on the state it was first executed on.
+	lastHeight := stateDB.LastBlockHeight()
+	if bctx := stateDB.LastBlockContext(); bctx != nil {
+		lastHeight = bctx.Height()
+	}
+	for _, name := range []string{"gov_params", "proposal", "frozen_proposal", "accounts", "delegatees", "frozen", "rewards"} {
+		if xerr := ledger.RollbackTo(name, config.DBDir(), lastHeight); xerr != nil {
+			panic(xerr)
+		}
+	}
+	if xerr := evm.RollbackTo(config.DBDir(), lastHeight); xerr != nil {
+		panic(xerr)
 	}
 
 	govCtrler, err := gov.NewGovCtrler(config, logger)
